@@ -14,6 +14,8 @@ from collections import OrderedDict
 
 import numpy as np
 
+from vf.tx import amax as _amax
+
 from vf.core import Workload
 from vf import taps, gen
 from vf.digest import digest
@@ -481,7 +483,7 @@ def w_labellers(ctx, rng, i):
     h = np.eye(d + 1); h[:d, :d] = gen.well_conditioned(rng, d); h[:d, d] = rng.uniform(-5, 5, d)
     T = mt.Affine(h)
     out_t = f(wrap(T.apply(pts)))
-    if np.abs(out_t.points - T.apply(op)).max() > 1e-9 * max(1.0, np.abs(op).max()):
+    if _amax(out_t.points - T.apply(op)) > 1e-9 * max(1.0, np.abs(op).max()):
         ctx.fail("labeller_does_not_commute_with_a_transform", cls=name, mech=kind)
     if hasattr(out, "_labels_to_masks"):
         same = list(out_t._labels_to_masks.keys()) == list(out._labels_to_masks.keys()) and all(
